@@ -240,3 +240,7 @@ Proof.
   apply String.eqb_eq in He. subst y. exact Hy.
 Qed.
 Print Assumptions C01_reorg_covers_all_tables.
+
+(* assumptions of the theorems above that had no report next to them *)
+Print Assumptions C01_window_pinned.
+Print Assumptions C01_engine_guard_spec.
